@@ -53,6 +53,26 @@ static unsigned char *dr_rebase(const void *p)
 }
 #endif
 
+#ifdef VERIF_REPLAY
+/* native link: the parts of frag_table.c that data_reader.c references but
+ * a harness does not reach; a harness that defines one itself says so with
+ * DR_DEFINES_LOOKUP / DR_DEFINES_TABLE_READ before including this file */
+__attribute__((weak)) sqfs_frag_table_t *sqfs_frag_table_create(sqfs_u32 f)
+{ (void)f; return NULL; }
+#ifndef DR_DEFINES_TABLE_READ
+__attribute__((weak)) int sqfs_frag_table_read(sqfs_frag_table_t *t, sqfs_file_t *f,
+	const sqfs_super_t *s, sqfs_compressor_t *c)
+{ (void)t; (void)f; (void)s; (void)c; return SQFS_ERROR_INTERNAL; }
+__attribute__((weak)) size_t sqfs_frag_table_get_size(sqfs_frag_table_t *t)
+{ (void)t; return 0; }
+#endif
+#ifndef DR_DEFINES_LOOKUP
+__attribute__((weak)) int sqfs_frag_table_lookup(sqfs_frag_table_t *t, sqfs_u32 i,
+	sqfs_fragment_t *o)
+{ (void)t; (void)i; (void)o; return SQFS_ERROR_INTERNAL; }
+#endif
+#endif
+
 static sqfs_data_reader_t *dr_new(sqfs_frag_table_t *ft)
 {
 	sqfs_data_reader_t *rd;
